@@ -271,12 +271,18 @@ Qed.
 (* ---------- every operation preserves the invariant ---------- *)
 Lemma vstep_pull : forall s d, vstep s (VPull d) = store s VA d (fst (vtransfer true (vdoc_of s VB d) (vdoc_of s VA d))).
 Proof.
-  intros s d. unfold vstep, vstep_full. destruct (vtransfer true (vdoc_of s VB d) (vdoc_of s VA d)). reflexivity.
+  intros s d. unfold vstep, vstep_full, pull_full. destruct (vtransfer true (vdoc_of s VB d) (vdoc_of s VA d)). reflexivity.
 Qed.
 Lemma vstep_push : forall s d, vstep s (VPush d) = store s VB d (fst (vtransfer false (vdoc_of s VA d) (vdoc_of s VB d))).
 Proof.
-  intros s d. unfold vstep, vstep_full. destruct (vtransfer false (vdoc_of s VA d) (vdoc_of s VB d)). reflexivity.
+  intros s d. unfold vstep, vstep_full, push_full. destruct (vtransfer false (vdoc_of s VA d) (vdoc_of s VB d)). reflexivity.
 Qed.
+
+(* the retried pull is the pull made after the interposed local PUT *)
+Lemma vstep_pull_retry : forall s d body phys,
+  vstep s (VPullRetry d body phys) = vstep (vstep s (VEdit VA d body phys)) (VPull d) /\
+  vstatus_of s (VPullRetry d body phys) = vstatus_of (vstep s (VEdit VA d body phys)) (VPull d).
+Proof. intros. split; reflexivity. Qed.
 
 Lemma transfer_inv : forall s p d resolver, VInv s ->
   VInv (store s p d (fst (vtransfer resolver (vdoc_of s (other p) d) (vdoc_of s p d)))).
@@ -302,12 +308,14 @@ Qed.
 
 Theorem vstep_inv : forall s o, VInv s -> VInv (vstep s o).
 Proof.
-  intros s o I. destruct o as [p d body phys | p d phys | d | d].
+  intros s o I. destruct o as [p d body phys | p d phys | d | d | d body phys].
   - apply local_write_inv. exact I.
   - unfold vstep, vstep_full. destruct (vdoc_of s p d) as [x|]; [|exact I].
     apply local_write_inv. exact I.
   - rewrite vstep_pull. apply (transfer_inv s VA d true I).
   - rewrite vstep_push. apply (transfer_inv s VB d false I).
+  - rewrite (proj1 (vstep_pull_retry s d body phys)). rewrite vstep_pull.
+    apply (transfer_inv _ VA d true). apply local_write_inv. exact I.
 Qed.
 
 Theorem vrun_inv : forall ops s, VInv s -> VInv (vrun s ops).
